@@ -1,5 +1,6 @@
-"""C09 -- spatial filters: contracts on Motl.remove_out_of_bounds_particles and Motl.adapt_to_trimming (deductive,
-generic row); clean_by_distance_to_points and clean_by_tomo_mask are decided by the bounded stand-in only."""
+"""C09 -- spatial filters: contracts on Motl.remove_out_of_bounds_particles, Motl.adapt_to_trimming (deductive, generic row) and
+Motl.clean_by_distance_to_points (arbitrary group x arbitrary reference point, ball-query contract); clean_by_tomo_mask is decided by the
+bounded stand-in only."""
 import z3
 from vfw import sym
 from vfw.sym import SV, SB, ctx
@@ -110,11 +111,223 @@ class AdaptToTrimming(Contract):
         return r.replay_trim(model)
 
 
-CONTRACTS = [RemoveOutOfBounds, AdaptToTrimming]
+# ---------------------------------------------------------------------------------------------------------------------------------
+# clean_by_distance_to_points: outer loop over groups = arbitrary iteration; inner loop over the reference points of the group = arbitrary
+# iteration whose ball-query result is added to a set; the set's membership is the existential closure over the inner loop's point
+
+
+class _RefPoints(frames._Generic):
+    """points.loc[points[feature] == f, ["x", "y", "z"]].values: the reference points of group f, one row per point (position functions of j)"""
+
+    def __init__(self, owner, f):
+        self.owner, self.f = owner, f
+
+    def __generic_for__(self, interp, st, env):
+        from vfw.models import kernels, npm
+        o = self.owner
+        j = z3.Int("ref_point_index")
+        o.loop_var = j
+
+        def bind(e):
+            e.vars[st.target.id] = _RefPoint(o, j)
+            return [z3.And(j >= 0, j < o.M, o.feat(j) == sym.real(sym.to_z3(self.f)))]
+        kernels.generic_body(interp, st, env, bind)
+
+
+class _RefPoint:
+    def __init__(self, owner, j):
+        self.owner, self.j = owner, j
+
+    def coords(self):
+        return [self.owner.Q[a](self.j) for a in range(3)]
+
+
+class _PointsTable:
+    """the table of reference points: columns <feature>, x, y, z; row j = (feat(j), Q0(j), Q1(j), Q2(j))"""
+
+    def __init__(self, feature):
+        self.feature = feature
+        self.M = z3.Int("n_ref_points")
+        self.feat = z3.Function("ref_feature", z3.IntSort(), z3.RealSort())
+        self.Q = [z3.Function(f"ref_{a}", z3.IntSort(), z3.RealSort()) for a in XYZ]
+        self.selected = []
+        self.loop_var = None
+
+    def __getitem__(self, c):
+        if c != self.feature:
+            raise sym.Unsupported("reference points: column other than the grouping field")
+        owner = self
+
+        class Col:
+            def __eq__(self, v):
+                return ("feature-equals", v)
+            __hash__ = None
+        return Col()
+
+    @property
+    def loc(self):
+        owner = self
+
+        class L:
+            def __getitem__(self, k):
+                if isinstance(k, tuple) and isinstance(k[0], tuple) and k[0][0] == "feature-equals" and list(k[1]) == list(XYZ):
+                    owner.selected.append(k[0][1])
+
+                    class Sel:
+                        values = _RefPoints(owner, k[0][1])
+                    return Sel()
+                raise sym.Unsupported("reference points: loc form")
+        return L()
+
+
+class _BallTree:
+    """assumed contract of scipy.spatial.KDTree(P).query_ball_point(q, r): exactly the row positions i of P with |P_i - q| <= r"""
+
+    def __init__(self, pts):
+        self.pts = pts
+
+    def query_ball_point(self, q, r=None, **k):
+        if not isinstance(q, _RefPoint) or r is None:
+            raise sym.Unsupported("ball query form")
+        return ("ball", self, q, r)
+
+
+class _RemoveSet(frames._Generic):
+    """indices_to_remove: a set of row positions filled by .update(ball) inside the loop over the reference points"""
+
+    def __init__(self):
+        self.sites = []
+
+    def update(self, ball):
+        if not (isinstance(ball, tuple) and ball[0] == "ball"):
+            raise sym.Unsupported("set.update with something else than a ball-query result")
+        cx = ctx()
+        self.sites.append({"tree": ball[1], "q": ball[2], "r": ball[3], "pc": [e[0] for e in cx.pc[getattr(cx, "_outer_loop_pc", 0):]]})
+
+
+class _GroupDF:
+    def __init__(self, group):
+        self.group, self.dropped = group, None
+        self.shape = (group.space.n, 20)
+        self.row = group.df.row  # the group's table (position functions); only drop() is modelled beyond that
+
+    def drop(self, index=None, **k):
+        if not (isinstance(index, tuple) and index[0] == "sorted" and isinstance(index[1], _RemoveSet)) or k:
+            raise sym.Unsupported("drop form")
+        self.dropped = index[1]
+        return ("piece", self.group, index[1])
+
+
+class CleanByDistanceToPoints(Contract):
+    """Motl.clean_by_distance_to_points: for an arbitrary group the appended piece holds exactly the group's particles that have no reference
+    point of the same group within the radius (complete positions, distance <= radius)"""
+    prop = "C09"
+    module = "cryomotl"
+    qual = "Motl.clean_by_distance_to_points"
+    configs = [{"feature": "tomo_id", "inplace": True}, {"feature": "object_id", "inplace": False}]
+
+    def cfg_name(self, cfg):
+        return f"group={cfg['feature']},inplace={cfg['inplace']}"
+
+    def bind(self, cx, cfg):
+        from .c07 import Group, Accum, PDStub, PosArr
+        from .c18 import FeatureKeys
+        it = _interp()
+        df = common.fresh_motl_frame(angles=False)
+        me = common.motl_obj(it, df)
+        pts = _PointsTable(cfg["feature"])
+        cx.assume(pts.M >= 0)
+        R = SV(z3.Real("radius"))
+        cx.assume(R.t >= 0)
+        rec = {"groups": [], "sets": [], "trees": [], "motl": []}
+
+        def mk_group(self_, f, feature_id="tomo_id", reset_index=False, **k):
+            g = Group(it, "grp_", f, feature_id)
+            g.reset = reset_index
+            g.df = _GroupDF(g)
+            rec["groups"].append(g)
+            return g
+
+        def mkset(*a):
+            if a:
+                return set(*a)
+            s = _RemoveSet()
+            rec["sets"].append(s)
+            return s
+
+        def mktree(p):
+            t = _BallTree(p)
+            rec["trees"].append(t)
+            return t
+
+        class Result:
+            def __init__(self, d):
+                self.df = d
+                rec["motl"].append(self)
+
+        it.contracts["Motl.get_motl_subset"] = mk_group
+        it.contracts["Motl.get_unique_values"] = lambda self_, fid: (rec.__setitem__("unique_of", fid), FeatureKeys())[1]
+        it.globals.update({"set": mkset, "KDTree": mktree, "sorted": lambda s: ("sorted", s), "pd": PDStub(it.globals["pd"]), "Motl": Result})
+        f = it.function("Motl.clean_by_distance_to_points").bind(me)
+
+        def thunk():
+            for k in ("groups", "sets", "trees", "motl"):
+                rec[k] = []
+            r = f(pts, R, feature_id=cfg["feature"], inplace=cfg["inplace"])
+            return dict(rec, ret=r, out=me.df, pts=pts)
+        return thunk, {"me": me, "df": df, "R": R, "pts": pts}
+
+    def post(self, cx, cfg, inp, res):
+        from .c07 import Accum, PosArr
+        R, pts = inp["R"].t, inp["pts"]
+        acc = res["out"] if cfg["inplace"] else getattr(res["ret"], "df", None)
+        cl = [("groups_are_the_values_of_the_grouping_field", z3.BoolVal(res.get("unique_of") == cfg["feature"])),
+              ("result_delivered_as_requested", z3.BoolVal((res["ret"] is None and cfg["inplace"]) or (not cfg["inplace"] and res["ret"] is not None and res["out"] is inp["df"])))]
+        ok = isinstance(acc, Accum) and len(acc.pieces) == 1 and len(res["groups"]) == 1 and len(res["sets"]) == 1 and len(res["trees"]) == 1
+        cl.append(("one_piece_per_group_from_one_tree_and_one_removal_set", z3.BoolVal(bool(ok))))
+        if not ok:
+            return cl
+        g, rs, tree = res["groups"][0], res["sets"][0], res["trees"][0]
+        piece, ign = acc.pieces[0]
+        cl.append(("group_selected_by_the_grouping_field_with_index_reset", z3.BoolVal(g.feature == cfg["feature"] and g.reset is True and bool(ign))))
+        cl.append(("piece_is_the_group_minus_the_collected_positions", z3.BoolVal(isinstance(piece, tuple) and piece[0] == "piece" and piece[1] is g and piece[2] is rs)))
+        cl.append(("tree_holds_the_groups_complete_positions", z3.BoolVal(isinstance(tree.pts, PosArr) and tree.pts is g.pos)))
+        cl.append(("reference_points_are_those_of_the_same_group", z3.BoolVal(len(pts.selected) == 1 and pts.selected[0] is g.f)))
+        one = len(rs.sites) == 1 and rs.sites[0]["tree"] is tree
+        cl.append(("every_reference_point_of_the_group_is_queried_once", z3.BoolVal(bool(one))))
+        if not one:
+            return cl
+        s = rs.sites[0]
+        # membership of row position i in the removal set = exists j (loop facts of j) with |P_i - Q_j| <= r   (assumed ball-query contract)
+        i, j = z3.Int("i!rm"), z3.Int("j!rm")
+        jv = pts.loop_var
+        pv = frames.RowPos(g.space).val.t
+        P = [sym.real(sym.to_z3(v)) for v in g.pos.vals]
+        Pi = [z3.substitute(p, (pv, i)) for p in P]
+        d2 = lambda jj: sum(((Pi[a] - pts.Q[a](jj)) * (Pi[a] - pts.Q[a](jj)) for a in range(3)), z3.RealVal(0))
+        loop_facts = z3.And(*[z3.substitute(c, (jv, j)) for c in s["pc"]]) if s["pc"] else z3.BoolVal(True)
+        r_used = sym.real(sym.to_z3(s["r"]))
+        member = z3.Exists([j], z3.And(loop_facts, d2(j) <= r_used * r_used))
+        # independent statement: removed iff some reference point of the same group lies within the radius of the complete position
+        x = {a: z3.Function(f"grp_{a}", z3.IntSort(), z3.RealSort()) for a in ("x", "y", "z", "shift_x", "shift_y", "shift_z")}
+        pos_i = [x[a](i) + x["shift_" + a](i) for a in XYZ]
+        spec = z3.Exists([j], z3.And(j >= 0, j < pts.M, pts.feat(j) == sym.real(sym.to_z3(g.f)), sum(((pos_i[a] - pts.Q[a](j)) ** 2 for a in range(3)), z3.RealVal(0)) <= R * R))
+        cl.append(("removed_iff_a_reference_point_of_the_same_group_is_within_the_radius", z3.ForAll([i], z3.Implies(z3.And(i >= 0, i < sym.to_z3(g.space.n)), member == spec)), ()))
+        cl.append(("query_point_is_the_reference_point_itself", z3.BoolVal(isinstance(s["q"], _RefPoint) and s["q"].j.eq(jv))))
+        return cl
+
+    def replay(self, clause, model, cfg):
+        from rtc import c09 as r
+        return r.replay_kind("points")
+
+
+CONTRACTS = [RemoveOutOfBounds, AdaptToTrimming, CleanByDistanceToPoints]
 LEVEL = "proof"
 EXPLANATION = ("Inside-predicates of remove_out_of_bounds_particles (both boundary types, per-tomogram dimension lookup, Python truthiness of "
-               "`all(...) >= 0` encoded faithfully) and adapt_to_trimming proved on the generic row of the real AST; clean_by_distance_to_points and "
-               "clean_by_tomo_mask are out of deductive reach (KD-tree ball query, fancy indexing) and are decided by the bounded stand-in only.")
+               "`all(...) >= 0` encoded faithfully) and adapt_to_trimming proved on the generic row of the real AST; clean_by_distance_to_points: for an arbitrary group the "
+               "appended piece is the group minus exactly the particles with a reference point of the same group within the radius of their complete position (loop over the reference points as an "
+               "arbitrary iteration, KD-tree ball-query contract, index reset); clean_by_tomo_mask is out of deductive reach (fancy indexing of the mask, in-place removal across iterations) and is "
+               "decided by the bounded stand-in only.")
 ASSUMPTIONS = ["conventions where the statement is silent: inside means 0 <= c-b and c+b < dim with b = 0 ('center') or ceil(box/2) ('whole'); trimming keeps start <= x,y,z <= end on extraction positions; mask voxel of a particle is trunc(pos); within the radius is <=",
                "ioutils.dimensions_load returns a table with one row per tomogram (assumed; exercised by the bounded stand-in)",
                "scipy KDTree.query_ball_point returns exactly the indices within distance <= r (bounded stand-in compares with brute force)"]
